@@ -43,6 +43,7 @@ SpikeParams == [st : Thr, ft : Thr, method : {"average", "differential"}]
 StartSpike ==
     \/ \E x \in SeqsUpTo(Vals4 \cup {NA}, MaxLen), p \in SpikeParams : Start(Call("spike", x, E, E, E, E, E, p))
     \/ Start(Call("spike", <<0, 2, 0>>, E, E, E, E, E, [st |-> <<1, 1>>, ft |-> <<>>, method |-> "bogus"]))
+    \/ Start(Call("spike", <<0, 2, 0>>, E, E, E, E, E, [st |-> <<1, 1>>, ft |-> <<>>, method |-> "Average"]))
 
 GrossGrid == IF Big THEN 0..5 ELSE {0, 2, 3, 5}
 GrossSpans == { <<a, b>> : a \in GrossGrid, b \in GrossGrid }
